@@ -8,3 +8,4 @@ pub mod jobgen;
 pub mod jobmodel;
 pub mod props;
 pub mod sim;
+pub mod wxrun;
